@@ -96,16 +96,18 @@ func (noFold) UpdateFoldFileProgress(progress int, done bool, err error) {}
 // ---- engine ----------------------------------------------------------------
 
 type Engine struct {
-	Dir     string
-	S       *replica.Server
-	M       *Model
-	Fast    bool
-	step    int
-	Trace   []string
-	Created map[string]string
-	barrier *os.File
-	Labels  map[string]int
-	lastOp  string
+	Dir         string
+	S           *replica.Server
+	M           *Model
+	Fast        bool
+	step        int
+	Trace       []string
+	Created     map[string]string
+	barrier     *os.File
+	Labels      map[string]int
+	lastOp      string
+	LastRemoved string // target of the last successful cleaner-style removal
+	LastErr     error  // error of the last management call (nil = accepted)
 	// configuration
 	CheckSnaps   bool
 	CheckCounter bool
@@ -691,6 +693,7 @@ func (e *Engine) removeViaCleaner(op Op) *Fail {
 			}
 		}
 	}
+	e.LastRemoved = target
 	m.Remove(target)
 	if m.Checkpoint == target {
 		m.Checkpoint = ""
